@@ -80,3 +80,8 @@ package helpers
 //@   modifies n.Attr, elems(n.Attr)
 //@ func RemoveAttr(n, key)
 //@   modifies n.Attr
+
+//@ func FormatAttr(val) (r)
+//@   trusted
+//@   pure
+//@   ensures r == fmtAttr(val)
